@@ -22,12 +22,22 @@ def nontrivial(case, impl, model, oracle):
 
 
 CHECK, MANIFEST = srvgen.make_check(
-    "C03", "Props/C03.v", ["c03_silent_iff", "c03_header_and_question", "c03_question_is_spec"],
+    "C03", "Props/C03.v", ["c03_silent_iff", "c03_header_and_question", "c03_question_is_spec",
+                         "c03_question_octets", "c03_writer_keeps_question", "c03_question_echo_octets", "c03_plain_response_decodes", "c03_plain_response_end_to_end", "c03_answered_response_header", "c03_answered_response_ra_z"],
     srvgen.oracle_c03, gen, nontrivial, srvgen.std_classify,
     ("Coq theorems (no axioms): the model of handle_message sends nothing exactly for requests shorter than 12 octets, with QR "
      "set, or with QDCOUNT > 1; every response carries the request's ID and opcode and RD only for opcode QUERY, and its question "
-     "is the one read from the request, which is the spec-level decoding of the request's question (C14/C15). QR=1, RA=0, Z=0 and "
-     "the octet-for-octet echo of an uncompressed QNAME (the Writer writes the first name uncompressed, case preserved) are "
-     "checked on the real octets by the correspondence run, which includes all 65536 flag/opcode words (thorough; every 7th quick)."),
+     "is the one read from the request, which is the spec-level decoding of the request's question (C14/C15). The octet-for-octet "
+     "echo is a theorem over the BYTE-LEVEL composition the server-level runner executes (Model/QueryW.v respond_w/respond_plain on "
+     "the Writer model of C12): when the QNAME is uncompressed (the label sequence at offset 12 ends in the root label) the "
+     "question read, re-serialised, IS the request's octets [12, end of question) (c03_question_octets), the finished message "
+     "carries the first question uncompressed with its case preserved at offset 12 whatever query answering, EDNS/limit handling "
+     "and finish do afterwards (c03_writer_keeps_question), hence response[12..end) = request[12..end) for every response with a "
+     "question (c03_question_echo_octets); for the responses that do not come from query answering, respond_plain is a run of "
+     "the C12 operation language, so the independent RFC 1035 decoder returns ID, QR=1, opcode, AA=TC=0, RD, RA=0, Z=0, RCODE, "
+     "one question, no records and (iff EDNS) exactly one OPT with owner root, class = payload size, TTL 0 "
+     "(c03_plain_response_decodes, via c12_roundtrip); every answered response starts with the ID and a third octet with QR=1, "
+     "opcode 0 and RD as copied (c03_answered_response_header) and has RA = Z = 0 (c03_answered_response_ra_z). QR=1, RA=0, Z=0 and the same echo are checked on the real octets by the correspondence "
+     "run, which includes all 65536 flag/opcode words (thorough; every 7th quick)."),
     "machine-checked proof in Coq + correspondence check (exhaustive over the flags/opcode header word in the thorough tier)")
 CHECK["suites"][0]["finding_matches"] = srvgen.finding_c03_pointer_qname
